@@ -167,13 +167,19 @@ def sn_native():
                        'distinct by construction; non-trivial = at least two atoms')
 
 
+def emit_sn():
+    from kit.emit_sn import EmitSN
+    return EmitSN()
+
+
 def C16():
     from units import snl
     return {
-        'level': 'exploration', 'parts': [sn_native(), ProofPart(snl, 'SNL')], 'samples': snl.SAMPLES,
+        'level': 'exploration', 'parts': [sn_native(), emit_sn(), ProofPart(snl, 'SNL')], 'samples': snl.SAMPLES, 'routed_natives': (),
         'assumptions': [
             'bounded: premise length <= L over a fixed atom pool; never counted as proof',
-            'the step from ages to index fields (IndexSpec::from_query_spec_chain, flat_rule_to_ram) needs a real Eqlog and is not covered',
+            'part emit_sn: the same contract evaluated on the END of the pipeline (flatten .. emit) for the rules of the probe theories: flat-rule comments, the index fields each emitted rule function reads per premise position, and the exported dispatchers are parsed from the emitted modules',
+            'the step from ages to index fields (IndexSpec::from_query_spec_chain, flat_rule_to_ram) is covered only through part emit_sn, i.e. for the rules of the probe theories (which new/old field each premise position reads); which COLUMN ORDER / diagonal copy is read is not checked here',
             'the implicit functionality rule (semi_naive_functionality) is built from a real Eqlog and is not executed; its (New, All) shape is covered by lemma_functionality only',
             'eqlog_eqlog is replaced by a shim of id newtypes; itertools 0.15.0 is the real crate',
         ],
@@ -229,7 +235,7 @@ def C18():
 
 PROPERTIES = {'C03': C03, 'C04': C04, 'C05': C05, 'C06': C06, 'C07': C07, 'C14': C14, 'C08': C08, 'C16': C16, 'C18': C18, 'C11': C11}
 
-NATIVES = {'uf_0': lambda: uf_native(0), 'uf_1': lambda: uf_native(1), 'rt_wb': lambda: rt_native('wb'), 'rt_pt': lambda: rt_native('pt'), 'rt_ts': lambda: rt_native('ts'), 'sn': sn_native, 'sd': sd_native, 'gen': gen_native}
+NATIVES = {'uf_0': lambda: uf_native(0), 'uf_1': lambda: uf_native(1), 'rt_wb': lambda: rt_native('wb'), 'rt_pt': lambda: rt_native('pt'), 'rt_ts': lambda: rt_native('ts'), 'sn': sn_native, 'sd': sd_native, 'gen': gen_native, 'emit_sn': emit_sn}
 
 
 def replay(pid, path):
